@@ -87,23 +87,17 @@ func (f *Dovector) Call(s *slip.Scope, args slip.List, depth int) slip.Object {
 	ns.Let(sym, nil) // use the safe way to verify it's a valid symbol to use for a let.
 	for _, v := range list {
 		ns.UnsafeLet(sym, v)
-		for i := 1; i < len(args); i++ {
-			switch args[i].(type) {
-			case slip.List, slip.Funky:
-				switch tr := slip.EvalArg(ns, args, i, d2).(type) {
-				case *slip.ReturnResult:
-					if tr.Tag == nil {
-						return tr.Result
-					}
-					return tr
-				case *cl.GoTo:
-					for i++; i < len(args); i++ {
-						if args[i] == tr.Tag {
-							break
-						}
-					}
-				}
+		switch tr := cl.EvalTagBody(ns, args, 1, d2).(type) {
+		case *slip.ReturnResult:
+			if tr.Tag == nil {
+				return tr.Result
 			}
+			// return-from made sure a block with that name encloses this
+			// form.
+			return tr
+		case *cl.GoTo:
+			// The tag is in an enclosing tagbody.
+			return tr
 		}
 	}
 	ns.UnsafeLet(sym, nil)
